@@ -1,9 +1,18 @@
 """C06 - formatting yields a valid empty volume for every accepted request.
 
-proof            Props/C06.v (totality, error kind, validity of every accepted geometry, default options succeed for
-                 42 <= ts < 2^32) over Model/Format.v
+proof            Props/C06.v part 1 (totality, error kind, validity of every accepted geometry, default options succeed for
+                 42 <= ts < 2^32) over Model/Format.v; part 2 (C06_image_*: boot-sector copies, FAT copies, root directory,
+                 free space / FS-info, frame, no panic, decode through Spec/Abs.v + Spec/Wf.v) over Model/FormatImage.v for
+                 every request, every 32-bit sector count and every initial device content
 correspondence   identical request lines to `fatfs-exec fmtbs` (real library, boot-sector hook) and to the extracted
-                 model (`model c06`): outputs must be equal byte for byte
+                 model (`model c06`): outputs must be equal byte for byte;
+                 format_image: a few hundred sampled requests per run (all FAT widths, sector sizes 512..4096, 1-2 FATs,
+                 root entries, labels incl. 0x00/0xE5/0x05 lead bytes, media, volume ids, explicit and device-derived
+                 sector counts, blank and stale devices): the real format_volume runs on a sparse device and EVERY byte of
+                 the device afterwards (`pages`) is compared with the image the extracted model computes from the same
+                 initial content (`model c06i`) - written regions and untouched remainder alike;
+                 the FAT32 BAD-range branch of format_fat (tables reaching entry 0x0FFFFFF0; not computable by the
+                 extracted model) is compared on a sparse 128 GiB device with the statement of C06_image_fat
 direct checks    on the implementation's own output, independent of the model: no panic, only InvalidInput, every
                  accepted boot sector satisfies the extracted Spec/FormatSpec.v clauses (`model c06v`), default
                  options accepted iff ts >= 42; real format_volume on RAM images: boot sector = hook bytes, mounts
@@ -526,6 +535,248 @@ def run_images(rep, rng, tier):
         rep.sample({"format_script": second[0][5][:3], "geometry": second[0][2]})
 
 
+
+# ------------------------------------------------------------------------------------------------ format_image correspondence
+CORR_NAME = "Model/FormatImage.v format_image (model c06i) vs src/fs.rs format_volume (whole device image, 4096-byte pages)"
+NASTY_LABELS = [bytes([0x00]) + b"ZEROFIRST ", bytes([0xE5]) + b"DELETED   ", bytes([0x05]) + b"KANJI     ", b" LEADSPACE ",
+                bytes([0xFF] * 11), bytes([0x00] * 11), b"lower case ", b"A.B,C+D;E=F"]
+
+
+def parse_pages_md5(payload):
+    import hashlib
+    t = payload.split(" ") if payload else []
+    return {int(t[i]): t[i + 1] for i in range(0, len(t) - 1, 2)}
+
+
+def corr_requests(rng, tier):
+    """(format tokens[9], explicit_ts, device bytes, fill, [(off, len, byte)]) - mostly accepted requests of every FAT width"""
+    n = 300 if tier == "quick" else 2400
+    out = []
+    for i in range(n):
+        k = rng.below(100)
+        bits = 12 if k < 47 else 16 if k < 93 else 32
+        b = rng.choice(BPS_OK)
+        spc = 1 << rng.range(0, 4 if bits != 32 else 3)
+        lo, hi = {12: (0, 4084), 16: (4085, 12000), 32: (65525, 66500)}[bits]
+        cl = rng.range(lo, hi) if rng.chance(5, 6) else rng.choice([lo, lo + 1, hi])
+        if bits == 12 and rng.chance(1, 2):
+            cl = rng.range(0, 400)
+        root = rng.choice([512, 16, 240, 1, 17, 100, 48, 4096 if rng.chance(1, 4) else 32]) if bits != 32 else rng.choice([512, 0, 16])
+        fats = rng.choice([1, 2, 2]) if bits != 32 else rng.choice([1, 1, 2])
+        rds = (root * 32 + b - 1) // b if bits != 32 else 0
+        res = 8 if bits == 32 else 1
+        spf = ((cl + 2) * bits + b * 8 - 1) // (b * 8)
+        ts = res + rds + fats * spf + cl * spc + rng.range(0, spc)
+        j = rng.below(20)
+        if j == 0:
+            ts = rng.range(0, 40)                              # refused: too small
+        elif j == 1:
+            bits_forced = rng.choice([x for x in (12, 16, 32) if x != bits])
+        fat = bits if rng.chance(1, 2) else "-"
+        if j == 1:
+            fat = bits_forced                                  # mostly refused: forced width does not fit
+        lk = rng.below(10)
+        if lk < 4:
+            label = "-"
+        elif lk < 8:
+            label = bytes(rng.range(32, 126) for _ in range(11)).hex()
+        else:
+            label = rng.choice(NASTY_LABELS).hex()
+        media = rng.choice(["-", 0xF0, 0xF9, rng.range(0, 255)])
+        volid = rng.choice(["-", rng.range(0, U32)])
+        fill = rng.choice([0, 0, 0xD1, 0xFF, 0xE5, 0xF6, 0x20, rng.range(1, 255)])
+        explicit = rng.chance(2, 3)
+        extra = rng.choice([0, 0, 4096, 10000, 3 * b + 17]) if explicit else rng.range(0, b - 1)
+        dev = ts * b + extra
+        meta_bytes = (res + rds + fats * spf + 3 * spc) * b
+        ranges = []
+        m = rng.below(4)
+        if m == 1 and meta_bytes <= 100000:
+            ranges.append((0, min(meta_bytes + rng.range(0, 5000), dev), rng.range(1, 255)))     # the whole structure area is stale
+        elif m >= 1:
+            # stale bytes around every structure boundary: sector 0 tail, FS-info / backup sector, both ends of every FAT copy,
+            # root directory / root cluster and the first data clusters
+            marks = [0, 512, b, 2 * b, 6 * b, 7 * b, meta_bytes - 3 * spc * b, meta_bytes - 2 * spc * b, meta_bytes] + \
+                    [(res + k * spf) * b for k in range(fats + 1)] + [(res + fats * spf + rds) * b]
+            for _ in range(rng.range(1, 5)):
+                mk = rng.choice(marks)
+                off = max(0, mk - rng.range(0, 700))
+                ranges.append((off, rng.range(1, 1500), rng.range(0, 255)))
+            if rng.chance(1, 2):
+                ranges.append((rng.range(0, max(meta_bytes, 1)), rng.range(1, 6000), rng.range(0, 255)))
+        if rng.chance(1, 3):
+            # stale directory-looking bytes where the root directory / root cluster will be, stale FAT bytes
+            ranges.append(((res + fats * spf) * b, rng.range(32, min(4 * b, 6000)), 0x41))
+            ranges.append((res * b, rng.range(1, min(spf * b, 6000)), 0xFF))
+        ranges = [(o, min(l, dev - o), x) for (o, l, x) in ranges if o < dev and min(l, dev - o) > 0]
+        toks = [str(b), str(ts), str(b * spc) if rng.chance(5, 6) else "-", str(fat), str(root) if bits != 32 or rng.chance(1, 2) else "-",
+                str(fats), str(media), str(volid), label]
+        out.append((toks, explicit, dev, fill, ranges))
+    return out
+
+
+def corr_piece(reqs):
+    """one batch: the real format_volume on the device and the model on the same initial image"""
+    import hashlib
+    scripts, mlines = [], []
+    for toks, explicit, dev, fill, ranges in reqs:
+        sc = ["dev %d %d" % (dev, fill)] + ["fillrange %d %d %d" % r for r in ranges] + ["wlog 0"]
+        ft = list(toks)
+        if not explicit:
+            ft[1] = "-"
+        sc += ["format " + " ".join(ft), "pages"]
+        scripts.append(sc)
+        mlines.append(" ".join(toks) + " %d %s" % (fill, ",".join("%d:%d:%d" % r for r in ranges) or "-"))
+    res = vlib.run_scripts(scripts)
+    mo = vlib.model_run("c06i", "\n".join(mlines) + "\n")
+    out = []
+    for (toks, explicit, dev, fill, ranges), sc, ml, rs, m in zip(reqs, scripts, mlines, res, mo):
+        fr, pg = rs[-2], rs[-1]
+        mt = m.split(" ")
+        rec = {"key": tuple(toks) + (explicit, dev, fill, tuple(ranges)), "viol": None, "nofail": True, "outcome": None, "bits": None,
+               "pages": 0, "script": sc}
+        if fr.kind in ("panic", "hang", "bad"):
+            rec["viol"] = "format_volume %s: %s" % (fr.kind, fr.payload[:120]); rec["nofail"] = False
+            out.append(rec); continue
+        ekind = "ok" if fr.kind == "ok" else "err " + fr.payload.split(" ")[0]
+        mkind = "ok" if mt[0] == "ok" else " ".join(mt[:2]) if mt[0] == "err" else mt[0]
+        rec["outcome"] = ekind
+        if ekind != mkind:
+            rec["viol"] = "outcome differs: library %s, model %s" % (ekind, mkind)
+            out.append(rec); continue
+        if pg.kind != "ok":
+            rec["viol"] = "pages failed"; out.append(rec); continue
+        t = pg.payload.split(" ") if pg.payload else []
+        epages = {int(t[i]): t[i + 1] for i in range(0, len(t) - 1, 2)}
+        emd5 = {o: hashlib.md5(bytes.fromhex(h)).hexdigest() for o, h in epages.items()}
+        mp = [x for x in mt[2:] if x] if mt[0] in ("ok", "err") else []
+        mmd5 = {int(x.split(":")[0]): x.split(":")[1] for x in mp}
+        rec["pages"] = len(emd5)
+        if mt[0] == "ok":
+            rec["bits"] = mt[1]
+        if emd5 != mmd5:
+            diff = sorted(o for o in set(emd5) | set(mmd5) if emd5.get(o) != mmd5.get(o))
+            o0 = diff[0]
+            mh = vlib.model_run("c06ix", ml + " %d\n" % o0)[0]
+            eh = epages.get(o0, "%02x" % fill * 4096)
+            first = next((i for i in range(4096) if mh[2 * i:2 * i + 2] != eh[2 * i:2 * i + 2]), 0)
+            rec["viol"] = ("device image after format differs from the model's: first difference at byte offset %d (library %s, model %s), "
+                           "%d page(s) differ" % (o0 + first, eh[2 * first:2 * first + 2], mh[2 * first:2 * first + 2], len(diff)))
+            rec["first_difference"] = o0 + first
+        out.append(rec)
+    return out
+
+
+def run_image_corr(rep, rng, tier):
+    reqs = corr_requests(rng, tier)
+    # FAT32 requests are the slow ones (a FAT of >= 256 KiB per copy): spread them over the batches
+    nb = 16
+    def cost(r):
+        toks = r[0]
+        return int(toks[1]) * int(toks[0]) // 60 + sum(x[1] for x in r[4]) + 20000     # ~ bytes the model writes
+    batches = [[] for _ in range(nb)]
+    load = [0] * nb
+    for r in sorted(reqs, key=cost, reverse=True):
+        i = load.index(min(load))
+        batches[i].append(r); load[i] += cost(r)
+    outcome = collections.Counter(); bitsc = collections.Counter(); fills = collections.Counter(); bpsc = collections.Counter()
+    nonblank = labels = derived = npages = 0
+    with cf.ThreadPoolExecutor(max_workers=nb) as ex:
+        for recs in ex.map(corr_piece, batches):
+            for r in recs:
+                rep.count()
+                outcome[r["outcome"] or "panic"] += 1
+                if r["bits"]:
+                    bitsc["fat" + r["bits"]] += 1
+                k = r["key"]
+                bpsc[k[0]] += 1; fills["0" if k[11] == 0 else "nonzero"] += 1
+                nonblank += 1 if k[12] else 0; labels += 1 if k[8] != "-" else 0; derived += 0 if k[9] else 1
+                npages += r["pages"]
+                if r["viol"]:
+                    replay = {"script": r["script"], "theorem_or_correspondence": CORR_NAME}
+                    if "first_difference" in r:
+                        replay["first_difference"] = r["first_difference"]
+                    rep.violation("[format_image] %s: %s" % (" ".join(r["script"][-2:-1]), r["viol"]), replay, nofail=r["nofail"])
+                else:
+                    rep.cov["traces_validated_against_impl"] += 1
+                    if r["outcome"] == "ok":
+                        rep.distinct(("corr",) + k)
+    rep.cov["format_image_correspondence"] = {
+        "requests": len(reqs), "outcomes": dict(outcome), "fat_width_of_accepted": dict(bitsc), "bytes_per_sector": dict(bpsc),
+        "device_fill": dict(fills), "devices_with_stale_ranges": nonblank, "with_label": labels, "sector_count_from_device_size": derived,
+        "pages_compared": npages,
+        "rule": "every byte of the device after the real format_volume = the image computed by the extracted format_image from the same "
+                "initial device content (all 4096-byte pages that differ from the fill byte, both directions), so every written region "
+                "AND the untouched remainder are compared"}
+
+
+
+# ------------------------------------------------------------------------------------------------ FAT32 BAD range
+def run_bad_range(rep):
+    """The top of the FAT32 range (tables reaching cluster numbers 0x0FFFFFF0..): the extracted model cannot zero a 1 GiB table,
+    so the BAD-range branch of format_fat is tied to the code through the statements of C06_image_fat / C06_image_free_space:
+    the real library formats a sparse 128 GiB device; (direct check) the FS-info free count must equal the number of free
+    entries among the data clusters of the table (counted over the whole sparse table) and what stats() reports;
+    (correspondence) the raw entries / FS-info words must be the ones the theorems give."""
+    BAD0, BAD1 = 0x0FFFFFF0, 0x10000000
+    for ts in (270532604, 270532603, 270532599, 270532598, 270532590):
+        fatpos = 8 * 512
+        first = BAD0 - 12
+        sc = ["dev %d 0" % (ts * 512), "wlog 0", "format 512 %d 512 32 - 1 - - -" % ts, "dump 0 512",
+              "dump %d %d" % (fatpos + 4 * first, 4 * (BAD1 - first)), "dump %d 12" % fatpos, "dump %d 8" % (512 + 488),
+              "pages", "mount 1 0 lossy", "stats", "unmount"]
+        rs = vlib.run_scripts([sc])[0]
+        rep.count()
+        replay = {"script": sc, "theorem_or_correspondence": "C06_image_fat / C06_image_free_space (BAD range 0x0FFFFFF0.. of format_fat) vs src/table.rs format_fat, src/fs.rs format_volume"}
+        if any(r.kind != "ok" for r in rs[:10]):
+            rep.violation("[bad range] format / mount / stats of a %d-sector FAT32 volume: %s" % (ts, [(r.kind, r.payload[:40]) for r in rs if r.kind != "ok"][:2]),
+                          {"script": sc}); continue
+        g = [int(x) for x in vlib.model_run("c06g", rs[3].payload + "\n")[0].split(" ")]
+        total, spf = g[7], g[6]
+        entries = spf * 512 // 4
+        fsw = bytes.fromhex(rs[6].payload)
+        fs_free, fs_next = le(fsw, 0, 4), le(fsw, 4, 4)
+        # ---- direct: count the free entries 2 .. total+1 over the whole (sparse) table: only materialised pages can hold non-zero entries
+        t = rs[7].payload.split(" ") if rs[7].payload else []
+        nonfree = 0
+        for i in range(0, len(t) - 1, 2):
+            off, pg = int(t[i]), bytes.fromhex(t[i + 1])
+            for j in range(0, 4096, 4):
+                a = off + j
+                if fatpos <= a < fatpos + spf * 512:
+                    x = (a - fatpos) // 4
+                    if 2 <= x < total + 2 and le(pg, j, 4) & 0x0FFFFFFF != 0:
+                        nonfree += 1
+        table_free = total - nonfree
+        st = [int(x) for x in rs[9].payload.split(" ")]
+        if not (fs_free == table_free == st[2]) or st[1] != total:
+            rep.violation("[bad range] fresh FAT32 volume of %d sectors (%d clusters): FS-info says %d free, the table has %d free data-cluster "
+                          "entries, stats reports total %d free %d" % (ts, total, fs_free, table_free, st[1], st[2]), {"script": sc}); continue
+        # ---- correspondence with the theorems
+        raw = bytes.fromhex(rs[4].payload)
+        got = [le(raw, 4 * i, 4) & 0x0FFFFFFF for i in range(BAD1 - first)]
+        exp = []
+        for x in range(first, BAD1):
+            if x >= entries:
+                exp.append(None)
+            elif x < total + 2:
+                exp.append(0x0FFFFFF7 if x >= BAD0 else 0)                          # data_val
+            else:
+                exp.append(0x0FFFFFF7 if BAD0 <= x < BAD1 else 0x0FFFFFFF)          # spare_val
+        bad = [(first + i, hex(a), hex(e)) for i, (a, e) in enumerate(zip(got, exp)) if e is not None and a != e]
+        head = bytes.fromhex(rs[5].payload)
+        nbad = max(0, total + 2 - BAD0)
+        if bad or le(head, 0, 4) != 0x0FFFFFF8 or le(head, 4, 4) != 0xFFFFFFFF or le(head, 8, 4) & 0x0FFFFFFF != 0x0FFFFFFF \
+           or fs_free != total - 1 - nbad or fs_next != 3:
+            rep.violation("[bad range] %d sectors (%d clusters): FAT entries / FS-info (free %d next %d) differ from C06_image_fat / "
+                          "C06_image_free_space: %s" % (ts, total, fs_free, fs_next, bad[:3]), replay, nofail=True); continue
+        rep.cov["traces_validated_against_impl"] += 1
+        rep.distinct(("badrange", ts))
+        rep.cov.setdefault("bad_range_volumes", []).append(
+            {"total_sectors": ts, "clusters": total, "table_entries": entries, "data_clusters_marked_bad": nbad,
+             "fsinfo_free = free_entries_in_table = stats": fs_free})
+
+
 # ------------------------------------------------------------------------------------------------ entry
 def run(rep, tier, seed):
     rng = vlib.Rng(seed)
@@ -582,6 +833,10 @@ def run(rep, tier, seed):
     # ---- real format_volume on RAM images
     run_images(rep, rng, tier)
     t3 = time.time()
+    # ---- the whole device image after format_volume against the extracted format_image
+    run_image_corr(rep, rng, tier)
+    run_bad_range(rep)
+    t4 = time.time()
     rep.cov["distribution"] = {
         "boundary_configurations": nconf, "boundary_lines": nb, "random_grid_lines": nr, "targeted_lines": nt, "malformed_lines": nm,
         "outcomes": dict(st.outcome), "bytes_per_sector": dict(st.bps), "requested_fat_type": dict(st.fat_req),
@@ -589,11 +844,12 @@ def run(rep, tier, seed):
         "total_sectors_bit_length": {str(k): v for k, v in sorted(st.ts_log2.items())},
         "sectors_per_cluster_of_accepted(sample)": dict(st.spc_ok),
         "release_variant_lines": "every %d-th chunk" % (4 if quick else 6),
-        "seconds": {"bulk": round(t1 - t0, 1), "sweep": round(t2 - t1, 1), "images": round(t3 - t2, 1)}}
+        "seconds": {"bulk": round(t1 - t0, 1), "sweep": round(t2 - t1, 1), "images": round(t3 - t2, 1), "format_image": round(t4 - t3, 1)}}
     rep.cov["rule"] = ("bulk: one evaluation = one request line (bps, total sectors, cluster size, FAT type, root entries, FAT count, media, id, label) "
                        "sent to the real library (hook) and to the extracted model and compared byte for byte, plus the Spec clauses on the "
                        "library's 512 bytes; distinct_nontrivial = distinct ACCEPTED requests whose boot sector matched the model and passed "
                        "every clause, plus distinct image configurations that passed all image-level checks; sweep evaluations are counted in "
                        "'evaluations' only")
-    rep.cov["not_covered"] = ("image-level theorem (abs(format_image) = empty volume) is not proved; the image is checked on the implementation only "
-                              "(mount/stats/list/label/raw FAT, root, FS-info, backup sector)")
+    rep.cov["not_covered"] = ("the whole-volume statement abs(format_image ..) = empty volume is proved clause by clause (boot sector, FAT, root "
+                              "directory via Abs.dir_scan, FS-info, frame) and evaluated through Spec/Abs.v + Spec/Wf.v on two examples, not as one "
+                              "theorem over Abs.abs; device-size errors (device smaller than the requested volume) are not modelled")
